@@ -136,6 +136,23 @@ def eval_pair(case):
         S1 = nm(A - I[b[0]])
         if S1 != [x for x in ea if not ext(x, b[0])]:
             return ('sub-interface', a, b[0], S1)
+    # addition accepts a bare interface (and a class specification) as well
+    if b:
+        P1 = A + I[b[0]]
+        want = nm(A + Declaration(I[b[0]]))
+        try:
+            got1 = [getattr(x, '__name__', repr(x)) for x in P1]
+        except Exception as e:          # noqa: BLE001 - whatever iteration of the result raises
+            got1 = ['raised ' + type(e).__name__]
+        if got1 != want or (I[b[0]] in P1) is not True:
+            return ('add-interface', a, b[0], got1, want)
+        K = type('K', (), {})
+        classImplements(K, *[I[x] for x in b])
+        P2 = A + implementedBy(K)
+        if nm(P2) != P or not all(I[x] in P2 for x in P):
+            return ('add-class-specification', a, b, nm(P2), P)
+        if nm(implementedBy(K)) != eb:
+            return ('operand-modified-class-specification', a, b)
     if nm((A - B) + B) and set(nm((A - B) + B)) != set(expS) | set(eb):
         return ('sub-then-add', a, b)
     return None
@@ -288,9 +305,45 @@ def eval_users(case):
     return None
 
 
+def eval_also(case):
+    """IInterfaceDeclaration documents ``alsoProvides(ob, *new)`` as equivalent
+    to ``directlyProvides(ob, directlyProvidedBy(ob), *new)``; with arguments
+    flattened in place that is: what was directly provided, in order, then the
+    new interfaces, in order.  Checked against a twin object on which the long
+    form is spelled out, with and without a class specification among the
+    earlier direct declarations (it stays a live base)."""
+    da, direct, xs, with_spec = case
+    I = mkifaces()
+    A = type('A', (), {})
+    if da:
+        classImplements(A, *[I[n] for n in da])
+    Other = type('Other', (), {})
+    classImplements(Other, I['J'])
+    extra = [implementedBy(Other)] if with_spec else []
+    c, t = A(), A()
+    for ob in (c, t):
+        directlyProvides(ob, *([I[n] for n in direct] + extra))
+    alsoProvides(c, *[I[n] for n in xs])
+    directlyProvides(t, directlyProvidedBy(t), *[I[n] for n in xs])
+    got, want = nm(directlyProvidedBy(c)), nm(directlyProvidedBy(t))
+    if got != want:
+        return ('alsoProvides-differs-from-its-documented-equivalent', da, direct, xs, with_spec, got, want)
+    rb = lambda ob: [getattr(b, '__name__', '?') for b in directlyProvidedBy(ob).__bases__]
+    if rb(c) != rb(t):
+        return ('alsoProvides-bases-differ-from-documented-equivalent', da, direct, xs, with_spec, rb(c), rb(t))
+    if with_spec:
+        Late = InterfaceClass('Late', (Interface,), {'__module__': wmod()})
+        classImplements(Other, Late)
+        if Late.providedBy(c) != Late.providedBy(t) or (Late in directlyProvidedBy(c)) != (Late in directlyProvidedBy(t)):
+            return ('alsoProvides-freezes-a-declared-class-specification', da, direct, xs)
+    if nm(providedBy(c)) != nm(providedBy(t)):
+        return ('alsoProvides-providedBy-differs-from-documented-equivalent', da, direct, xs, with_spec)
+    return None
+
+
 def _kinds():
     return {'construct': eval_construct, 'pair': eval_pair,
-            'classspec': eval_classspec, 'users': eval_users}
+            'classspec': eval_classspec, 'users': eval_users, 'also': eval_also}
 
 
 def evaluate(arg):
@@ -333,6 +386,8 @@ def run(ctx):
     one = [a for a in arglists if len(a) <= 1]
     cases += [('users', (da, direct, x)) for da in one
               for direct in arglists if len(direct) <= (2 if quick else 3) for x in NAMES]
+    cases += [('also', (da, direct, xs, ws)) for da in one for direct in two
+              for xs in arglists if 1 <= len(xs) <= (2 if quick else 3) for ws in (False, True)]
     for impl in ('c', 'py'):
         res = ctx.map(impl, 'evaluate', chunks(cases, 500))
         for r in res:
